@@ -508,6 +508,14 @@ ErrorCode FlexPath::to_polygons(bool filter, Tag tag, Array<Polygon*>& result) {
                             if (final_angle < initial_angle) final_angle += 2 * M_PI;
                             right_curve.arc(half_widths[2 * i], half_widths[2 * i], initial_angle,
                                             final_angle, 0);
+                        } else if (join_type == JoinType::Smooth &&
+                                   (r2 - r1).inner(tr0 + tr1) <= 0) {
+                            // The gap between the edges is empty (collinear
+                            // sections) or closes backwards (tapered widths):
+                            // there is nothing to interpolate forwards.
+                            segments_intersection(r1, tr0, r2, tr1, u0, u1);
+                            const Vec2 ri = 0.5 * (r1 + u0 * tr0 + r2 + u1 * tr1);
+                            right_curve.append(ri);
                         } else if (join_type == JoinType::Smooth) {
                             right_curve.append(r1);
                             Array<Vec2> point_array = {};
@@ -561,6 +569,11 @@ ErrorCode FlexPath::to_polygons(bool filter, Tag tag, Array<Polygon*>& result) {
                             if (final_angle > initial_angle) final_angle -= 2 * M_PI;
                             left_curve.arc(half_widths[2 * i], half_widths[2 * i], initial_angle,
                                            final_angle, 0);
+                        } else if (join_type == JoinType::Smooth &&
+                                   (l2 - l1).inner(tl0 + tl1) <= 0) {
+                            segments_intersection(l1, tl0, l2, tl1, u0, u1);
+                            const Vec2 li = 0.5 * (l1 + u0 * tl0 + l2 + u1 * tl1);
+                            left_curve.append(li);
                         } else if (join_type == JoinType::Smooth) {
                             left_curve.append(l1);
                             Array<Vec2> point_array = {};
